@@ -169,6 +169,20 @@ Theorem C02_quad_path_fill_spec :
       (cov out yy c <-> masked (wsum (xs_of (active_at es yy)) c) eo = true).
 Proof. exact quad_path_fill_spec. Qed.
 
+(* paths with cubic segments: the fill theorem holds, again without a balance hypothesis, for every path all of whose cubic edges
+   end on the row of their last point -- an executable test on the path ([path_cubics_exact p 0 = 1], Model/CurveFill.v) that the
+   check evaluates on its sampled paths and reports in the evidence (obligation `hypothesis:cubics_exact`) *)
+Theorem C02_cubic_path_fill_spec :
+  forall p es start stop rc eo out,
+  build_edges_curves p 0 = Some (Some es) -> path_cubics_exact p 0 = 1 ->
+  fill_spans es start stop rc eo 0 = Some out ->
+  (forall e, In e es -> start <= e_first_y e) -> 0 <= start -> 0 <= stop ->
+  exists acts : Z -> list ledge,
+    (forall yy, start <= yy -> (yy < stop \/ yy = start) -> asc (acts yy) /\ Permutation (acts yy) (active_at es yy)) /\
+    forall yy c, start <= yy -> (yy < stop \/ yy = start) -> (forall e, In e (acts yy) -> x_ok e) ->
+      (cov out yy c <-> masked (wsum (xs_of (active_at es yy)) c) eo = true).
+Proof. exact path_cubics_exact_fill_spec. Qed.
+
 (* the curve-aware builder is a conservative extension of the line builder *)
 Theorem C02_curve_builder_extends_line_builder :
   forall p shift r, build_edges p shift = Some r -> build_edges_curves p shift = Some r.
